@@ -631,6 +631,196 @@ def gen_queue_window(tree):
     tr = Tr(env)
     return tr.cond(body[0].test), tr.cond(body[2].test)
 
+def _amethod(tree, cls, name):
+    for n in ast.walk(tree):
+        if isinstance(n, ast.ClassDef) and n.name == cls:
+            for m in n.body:
+                if isinstance(m, (ast.FunctionDef, ast.AsyncFunctionDef)) and m.name == name:
+                    return m
+    raise Unsupported(f"{cls}.{name} not found")
+
+
+class TrPow(Tr):
+    """Tr + integer power with a constant base"""
+    def atom(self, node):
+        if isinstance(node, ast.BinOp) and isinstance(node.op, ast.Pow):
+            a, ta = self.atom(node.left)
+            b, tb = self.atom(node.right)
+            if ta != "nat" or tb != "nat":
+                raise Unsupported("power of non-integers")
+            return f"({a} ^ {b})", "nat"
+        return super().atom(node)
+
+
+def _is_sleep(call):
+    try:
+        return isinstance(call, ast.Call) and _dotted(call.func) in ("asyncio.sleep",) and len(call.args) == 1 and not call.keywords
+    except Unsupported:
+        return False
+
+
+def _sleeps(stmts, ctx=("top", None)):
+    """(context, loop variable / bound, argument expression) of every `await asyncio.sleep(E)`, in source order;
+    context: top | for (over range(X)) | while"""
+    out = []
+    for st in stmts:
+        if isinstance(st, ast.Expr) and isinstance(st.value, ast.Await) and _is_sleep(st.value.value):
+            out.append((ctx, st.value.value.args[0]))
+        elif isinstance(st, ast.For):
+            it = st.iter
+            if not (isinstance(it, ast.Call) and isinstance(it.func, ast.Name) and it.func.id == "range" and len(it.args) == 1
+                    and isinstance(st.target, ast.Name)):
+                if _sleeps(st.body, ("for", ("_", None))):
+                    raise Unsupported("a sleep inside a for loop that is not `for i in range(X)`")
+                continue
+            out += _sleeps(st.body, ("for", (st.target.id, it.args[0])))
+        elif isinstance(st, ast.While):
+            out += _sleeps(st.body, ("while", None))
+        elif isinstance(st, ast.Try):
+            out += _sleeps(st.body, ctx)
+            for h in st.handlers:
+                out += _sleeps(h.body, ctx)
+            out += _sleeps(st.finalbody, ctx)
+        elif isinstance(st, ast.If):
+            out += _sleeps(st.body, ctx) + _sleeps(st.orelse, ctx)
+        elif isinstance(st, (ast.With, ast.AsyncWith)):
+            out += _sleeps(st.body, ctx)
+    return out
+
+
+def _uniform_args(e):
+    if not (isinstance(e, ast.Call) and _dotted(e.func) == "random.uniform" and len(e.args) == 2 and not e.keywords):
+        raise Unsupported("initial delay is not random.uniform(a, b)")
+    return e.args
+
+
+def _timings_env(selfname):
+    t = f"{selfname}.timings."
+    return {t + "INITIAL_DELAY_MIN": ("lo", "nat"), t + "INITIAL_DELAY_MAX": ("hi", "nat"),
+            t + "REPETITIONS_MAX": ("rmax", "nat"), t + "REPETITIONS_BASE_DELAY": ("base", "nat"),
+            t + "CYCLIC_OFFER_DELAY": ("cyc", "nat"), t + "SUBSCRIBE_REFRESH_INTERVAL": ("refresh", "nat"),
+            t + "REQUEST_RESPONSE_DELAY_MIN": ("lo", "nat"), t + "REQUEST_RESPONSE_DELAY_MAX": ("hi", "nat"),
+            t + "SEND_COLLECTION_TIMEOUT": ("coll", "nat")}
+
+
+def gen_offer_delays(tree):
+    """ServiceInstance._offer_task: (initial window, repetition count, repetition delay, cyclic sleep)"""
+    fn = _amethod(tree, "ServiceInstance", "_offer_task")
+    me = _args(fn)[0]
+    sl = _sleeps(fn.body)
+    if [c[0][0] for c in sl] != ["top", "for", "while"]:
+        raise Unsupported(f"sleeps of _offer_task: {[c[0][0] for c in sl]}")
+    env = _timings_env(me)
+    lo, hi = _uniform_args(sl[0][1])
+    tr = TrPow(env)
+    win = f"({tr.atom(lo)[0]}, {tr.atom(hi)[0]})"
+    var, bound = sl[1][0][1]
+    cnt = tr.atom(bound)[0]
+    rep = TrPow({**env, var: ("i", "nat")}).atom(sl[1][1])[0]
+    cyc = tr.atom(sl[2][1])[0]
+    return win, cnt, rep, cyc
+
+
+def gen_find_delays(tree):
+    """ServiceDiscover.send_find_services: (initial window, repetition count, repetition delay)"""
+    fn = _amethod(tree, "ServiceDiscover", "send_find_services")
+    me = _args(fn)[0]
+    sl = _sleeps(fn.body)
+    if [c[0][0] for c in sl] != ["top", "for"]:
+        raise Unsupported(f"sleeps of send_find_services: {[c[0][0] for c in sl]}")
+    env = _timings_env(me)
+    lo, hi = _uniform_args(sl[0][1])
+    tr = TrPow(env)
+    win = f"({tr.atom(lo)[0]}, {tr.atom(hi)[0]})"
+    var, bound = sl[1][0][1]
+    cnt = tr.atom(bound)[0]
+    rep = TrPow({**env, var: ("i", "nat")}).atom(sl[1][1])[0]
+    return win, cnt, rep
+
+
+def gen_subscribe_sleep(tree):
+    fn = _amethod(tree, "ServiceSubscriber", "_subscribe")
+    me = _args(fn)[0]
+    sl = _sleeps(fn.body)
+    if [c[0][0] for c in sl] != ["while"]:
+        raise Unsupported(f"sleeps of _subscribe: {[c[0][0] for c in sl]}")
+    return TrPow(_timings_env(me)).atom(sl[0][1])[0]
+
+
+def _call_later_args(stmts):
+    out = []
+    for node in ast.walk(ast.Module(body=list(stmts), type_ignores=[])):
+        if isinstance(node, ast.Call) and isinstance(node.func, ast.Attribute) and node.func.attr == "call_later" and node.args:
+            out.append(node)
+    return out
+
+
+def gen_store_ttl(tree):
+    """TimedStore.refresh: (is a handle armed?, its delay in seconds)"""
+    fn = _method(tree, "TimedStore", "refresh")
+    a = _args(fn)
+    ttl = a[1]
+    forever = [n.value.value for n in tree.body if isinstance(n, ast.Assign) and len(n.targets) == 1
+               and isinstance(n.targets[0], ast.Name) and n.targets[0].id == "TTL_FOREVER"
+               and isinstance(n.value, ast.Constant) and isinstance(n.value.value, int)]
+    if len(forever) != 1:
+        raise Unsupported("TTL_FOREVER is not a module-level integer constant")
+    env = {ttl: ("ttl", "nat"), "TTL_FOREVER": (str(forever[0]), "nat")}
+    guard = None
+    delay = None
+    for st in fn.body:
+        if isinstance(st, ast.If) and not st.orelse:
+            calls = _call_later_args(st.body)
+            if len(calls) == 1:
+                guard = Tr(env).cond(st.test)
+                delay = Tr(env).atom(calls[0].args[0])[0]
+    if guard is None:
+        raise Unsupported("no `if <ttl test>: ... call_later(ttl, ...)` in TimedStore.refresh")
+    return guard, delay
+
+
+def gen_collect_delay(tree):
+    """ServiceAnnouncer.queue_send -> SendCollector(timeout, ...) -> call_later(timeout, ...)"""
+    fn = _method(tree, "ServiceAnnouncer", "queue_send")
+    me = _args(fn)[0]
+    ctor = [n for n in ast.walk(fn) if isinstance(n, ast.Call) and isinstance(n.func, ast.Name) and n.func.id == "SendCollector"]
+    if len(ctor) != 1 or not ctor[0].args:
+        raise Unsupported("no single SendCollector(timeout, ...) in queue_send")
+    init = _method(tree, "SendCollector", "__init__")
+    ia = _args(init)
+    calls = _call_later_args(init.body)
+    if len(calls) != 1:
+        raise Unsupported("SendCollector.__init__ does not arm exactly one handle")
+    passed = Tr(_timings_env(me)).atom(ctor[0].args[0])[0]
+    inner = Tr({ia[1]: (passed, "nat")}).atom(calls[0].args[0])[0]
+    return inner
+
+
+def gen_answer_window(tree):
+    """ServiceAnnouncer.handle_findservice: the window the deferred answer's delay is drawn from, and that the drawn value
+    is what call_later gets"""
+    fn = _method(tree, "ServiceAnnouncer", "handle_findservice")
+    me = _args(fn)[0]
+    uni = [n for n in ast.walk(fn) if isinstance(n, ast.Assign) and isinstance(n.value, ast.Call)
+           and isinstance(n.targets[0], ast.Name) and _safe_dotted(n.value.func) == "random.uniform"]
+    if len(uni) != 1:
+        raise Unsupported("no single `delay = random.uniform(a, b)` in handle_findservice")
+    var = uni[0].targets[0].id
+    lo, hi = _uniform_args(uni[0].value)
+    tr = Tr(_timings_env(me))
+    calls = _call_later_args(fn.body)
+    if len(calls) != 1 or not (isinstance(calls[0].args[0], ast.Name) and calls[0].args[0].id == var):
+        raise Unsupported("the drawn delay is not what call_later gets")
+    return f"({tr.atom(lo)[0]}, {tr.atom(hi)[0]})"
+
+
+def _safe_dotted(n):
+    try:
+        return _dotted(n)
+    except Unsupported:
+        return None
+
+
 ITEMS = [
     # (lean name, signature, fallback = the model's own function, generator)
     ("matchesOffer", "(s : Service) (e : SDEntry) : Except Err Bool", "s.matchesOffer e", lambda c, s: gen_matches(c, "matches_offer")),
@@ -661,6 +851,19 @@ ITEMS = [
     ("instMatchesFind", "(canAnswer m : Bool) : Bool", "canAnswer && m", lambda c, s: gen_inst_matches_find(s)),
     ("queueImmediate", "(coll : Nat) : Bool", "decide (coll = 0)", lambda c, s: gen_queue_window(s)[0]),
     ("queueNewWindow", "(qNone done : Bool) : Bool", "qNone || done", lambda c, s: gen_queue_window(s)[1]),
+    # delay expressions: arguments of asyncio.sleep / call_later / random.uniform behind the timing clauses
+    ("offerInitialWindow", "(lo hi : Nat) : Nat × Nat", "(lo, hi)", lambda c, s: gen_offer_delays(s)[0]),
+    ("offerRepCount", "(rmax : Nat) : Nat", "rmax", lambda c, s: gen_offer_delays(s)[1]),
+    ("offerRepDelay", "(i base : Nat) : Nat", "2 ^ i * base", lambda c, s: gen_offer_delays(s)[2]),
+    ("offerCyclicSleep", "(cyc : Nat) : Nat", "cyc", lambda c, s: gen_offer_delays(s)[3]),
+    ("findInitialWindow", "(lo hi : Nat) : Nat × Nat", "(lo, hi)", lambda c, s: gen_find_delays(s)[0]),
+    ("findRepCount", "(rmax : Nat) : Nat", "rmax", lambda c, s: gen_find_delays(s)[1]),
+    ("findRepDelay", "(i base : Nat) : Nat", "2 ^ i * base", lambda c, s: gen_find_delays(s)[2]),
+    ("subscribeSleep", "(refresh : Nat) : Nat", "refresh", lambda c, s: gen_subscribe_sleep(s)),
+    ("storeArms", "(ttl : Nat) : Bool", "!decide (ttl = 16777215)", lambda c, s: gen_store_ttl(s)[0]),
+    ("storeTtlDelay", "(ttl : Nat) : Nat", "ttl", lambda c, s: gen_store_ttl(s)[1]),
+    ("collectDelay", "(coll : Nat) : Nat", "coll", lambda c, s: gen_collect_delay(s)),
+    ("answerWindow", "(lo hi : Nat) : Nat × Nat", "(lo, hi)", lambda c, s: gen_answer_window(s)),
 ]
 
 
